@@ -6,7 +6,7 @@ import copy
 from sa.loader import AnalysisError, norm, walk_local
 from sa.cfg import cfg_of
 from sa.pathsum import summaries
-from .common import analysis, W_NAMES, tokens, names_in
+from .common import analysis, W_NAMES, tokens, names_in, assigned_values, ifexp_alternatives
 from .c02 import union_selection
 
 PROP = "C09"
@@ -159,9 +159,12 @@ def run(ctx):
         if isinstance(n, ast.Return) and isinstance(n.value, ast.Tuple) and len(n.value.elts) == 2:
             names_reported.append(n)
     srcs = set()
-    for n in walk_local(ru.node):
-        if isinstance(n, ast.Assign) and any(isinstance(t, ast.Name) and t.id == "schema_name" for t in n.targets):
-            srcs.add(norm(n.value))
+    for r_ in names_reported:
+        first = r_.value.elts[0]
+        vals = assigned_values(ru.node, first.id) if isinstance(first, ast.Name) else [first]
+        for v in vals:
+            for alt in ifexp_alternatives(v):
+                srcs.add(norm(alt))
     ok = bool(names_reported) and all(s.count("['name']") >= 1 for s in srcs) and bool(srcs)
     ctx.check("C09.R1", "reader reports the 'name' of the chosen branch's definition (inline or through the name table)", ok, ru.where(), f"read_union: name sources {sorted(srcs)}", "names returned by the reader for named branches must be the definitions' names, which is what the writer matches hints against")
 
